@@ -26,6 +26,8 @@ def rates(tp, tn, fp, fn):
       'matthews_correlation_coefficient': sdiv(tp * tn - fp * fn, math.sqrt((tp + fp) * (tp + fn) * (tn + fp) * (tn + fn))),
   }
   out['diagnostic_odds_ratio'] = sdiv(out['positive_likelihood_ratio'], out['negative_likelihood_ratio'])
+  # PT = (sqrt(TPR (1 - TNR)) + TNR - 1) / (TPR + TNR - 1), 0 when the denominator is 0 (a chance-level classifier)
+  out['prevalence_threshold'] = sdiv(math.sqrt(tpr * (1 - tnr)) + tnr - 1, tpr + tnr - 1)
   return out
 
 
